@@ -269,7 +269,13 @@ def run(tier, seed, rng, known, replay):
     if replay:
         return base.replay_file(replay, 'C08', ('result', 'state'), acceptor)
     n = 160 if tier == 'quick' else 2400
-    hists = stale_file_histories() + [history(rng, rng.choice([20, 50, 90])) for _ in range(n)]
+    from props import c09
+    lim = c09.limit_histories()
+    for h in lim:
+        # eviction at the size limit with expired items around cull_limit: afterwards no value file
+        # without a row, no row without its file, counters right
+        h['ops'] = h['ops'] + [{'m': 'check', 'now': 1040}]
+    hists = stale_file_histories() + lim + [history(rng, rng.choice([20, 50, 90])) for _ in range(n)]
     r = base.check_histories('C08', hists, ('result', 'state'), acceptor=acceptor, known=known)
     dist, distinct = base.op_distribution(hists, r['impl_out'])
     violations = list(r['violations'])
